@@ -58,7 +58,8 @@ def replay_row(row):
         a = IOD('a', world=wa, who='a')
         b = IOD('b', world=wb, who='b')
         sh.a = a
-        port = mp.MultiPort([a, b])
+        # every second history hands the member ports over as a one-shot iterable
+        port = mp.MultiPort([a, b]) if sum(len(x) for x in scripts) % 2 else mp.MultiPort(p for p in (a, b))
         sent = []
         for n, h in enumerate(hist):
             op, exp = h['op'], h['r']
